@@ -118,6 +118,9 @@ fn run_case(o: &Opts, case_seed: u64) -> CaseReport {
     if o.sub.starts_with("sched") || o.sub.starts_with("os") {
         return crate::camp_conc::conc_case(o, case_seed);
     }
+    if o.sub.starts_with("fault") {
+        return crate::camp_fault::fault_case(o, case_seed);
+    }
     match o.prop.as_str() {
         "C01" | "C02" | "C04" | "C05" | "C06" | "C07" | "C09" | "C10" | "C11" | "C03" => {
             crate::camp_single::acyclic_case(o, case_seed)
